@@ -83,10 +83,11 @@ def gen_geometry(rng, m, ground):
     L = rng.choice([5.0, 10.0, 21.414285, 16.0])
     n = rng.randrange(4, 11)
     free_t = ['dipole', 'vee', 'tee_free', 'star', 'two_wires', 'tapered',
-              'arc', 'helix', 'loop', 'bent3', 'radii2', 'array', 'zigzag', 'mixed', 'array_tail']
+              'arc', 'helix', 'loop', 'bent3', 'radii2', 'array', 'zigzag', 'mixed', 'array_tail',
+              'helix_fed', 'arc_fed']
     gnd_t = ['monopole', 'monopole_ud', 'inv_l', 'tee_gnd', 'dipole', 'vee',
              'two_monopoles', 'arc', 'helix', 'gnd_star', 'tapered', 'two_wires',
-             'array', 'zigzag', 'mixed', 'gnd_fan', 'array_tail']
+             'array', 'zigzag', 'mixed', 'gnd_fan', 'array_tail', 'helix_fed']
     t = rng.choice(gnd_t if ground else free_t)
     m.template = t
     m.length = L
@@ -198,6 +199,46 @@ def gen_geometry(rng, m, ground):
         for i in range(k):
             li = L * (1 - 0.07 * i)
             wire(rng.randrange(3, 7), (i * L / 6, -li / 2, h), (i * L / 6, li / 2, h))
+    elif t in ('helix_fed', 'arc_fed'):
+        # a curve joined to a straight feed wire (the wire has the lower tag,
+        # as in the project's helix examples); the joint may be fuzzy: the
+        # ends agree to within the matching tolerance but not exactly
+        fuzz = rng.choice([0.0, 0.0, 1.0]) * rng.choice([1, -1])
+        rr = rng.choice([0.0005, 0.001])
+        if t == 'helix_fed':
+            hr = rng.choice([0.1125, 0.2])
+            z0 = rng.choice([0.0239, 0.1])
+            nh = rng.randrange(12, 25)
+            ln = rng.choice([0.6, 1.2]) * rng.choice([1, -1])
+            turn = 0.15 * rng.choice([1, -1])
+            seg = hr * 2 * PI / 8            # rough length of one helix segment
+            d = fuzz * 2e-4 * min(seg, z0 / 3)
+            # start point of the helix: (hr, 0, 0) for positive length, (0, hr, 0) otherwise
+            start = (hr, 0.0) if ln > 0 else (0.0, hr)
+            a.extend(['-w', '1,3,0,0,0,%s,%s,%s,%s' % (_g(start[0] + d), _g(start[1]), _g(z0), _g(rr))])
+            m.geo.append(dict(kind='wire', nseg=3, r=rr, tag=1))
+            a.extend(['--helix', '2,%d,%s,%s,%s,%s,%s' % (nh, _g(ln), _g(turn), _g(0.002), _g(hr), _g(hr))])
+            m.geo.append(dict(kind='helix', nseg=nh, r=0.002, tag=2))
+            a.extend(['--geo-translate', '1,0,0,%s,2' % _g(z0)])
+            m.radii += [rr, 0.002]
+            m.length = 2 * PI * hr * abs(ln / turn) + abs(ln)
+        else:
+            R = rng.choice([1.5, 3.0])
+            na = rng.randrange(5, 10)
+            a1, a2 = rng.choice([(0, 90), (30, 150), (0, 180)])
+            import math
+            sx, sz = R * math.cos(math.radians(a1)), R * math.sin(math.radians(a1))
+            d = fuzz * 2e-4 * min(R * math.radians(a2 - a1) / na, 0.5)
+            a.extend(['-w', '1,4,%s,0,%s,%s,0,%s,%s' % (_g(sx + 2.0), _g(sz), _g(sx + d), _g(sz), _g(rr))])
+            m.geo.append(dict(kind='wire', nseg=4, r=rr, tag=1))
+            a.extend(['--arc', '2,%d,%s,%s,%s,%s' % (na, _g(R), _g(a1), _g(a2), _g(rr))])
+            m.geo.append(dict(kind='arc', nseg=na, r=rr, tag=2))
+            m.radii += [rr, rr]
+            m.length = R * 3
+        if fuzz:
+            m.features.append('fuzzy_junction')
+        m.features.append('curve_joined_to_wire')
+        m.exact = False
     elif t == 'array_tail':
         # 2..4 unconnected parallel elements and a tail (or two) whose END
         # is joined to the tip of one of them
@@ -248,7 +289,27 @@ def gen_geometry(rng, m, ground):
     # explicit / permuted tags on wires (arcs and helices are created first
     # by main, so leave those automatic)
     wires = [g for g in m.geo if g['kind'] == 'wire']
-    if len(wires) >= 2 and rng.random() < 0.35:
+    # fuzzy junctions between straight wires: move one joined end by a
+    # fraction of the matching tolerance (1e-3 of the shortest segment)
+    if len(wires) >= 2 and all('p1' in g for g in wires) and rng.random() < 0.12:
+        import math
+        minseg = min(math.dist(g['p1'], g['p2']) / g['nseg'] for g in wires)
+        wi = [i for i, x in enumerate(a) if x == '-w']
+        for j in range(1, len(wires)):
+            hit = None
+            for end in ('p1', 'p2'):
+                if any(wires[j][end] in (wires[k]['p1'], wires[k]['p2']) for k in range(j)):
+                    hit = end
+                    break
+            if hit and len(wi) == len(wires):
+                parts = a[wi[j] + 1].split(',')
+                pos = 1 + (0 if hit == 'p1' else 3)
+                d = 2e-4 * minseg * rng.choice([1, -1])
+                parts[pos] = repr(round(float(parts[pos]) + d, 9))
+                a[wi[j] + 1] = ','.join(parts)
+                m.features.append('fuzzy_junction')
+                break
+    if len(wires) >= 2 and t not in ('helix_fed', 'arc_fed') and rng.random() < 0.35:
         tags = list(range(1, len(wires) + 1))
         if rng.random() < 0.7:
             rng.shuffle(tags)
@@ -1369,6 +1430,15 @@ def gen_direct_task(rng, ground='shared_ideal', maxops=20):
         s = rng.choice([5.8e7, 1e6, 1e5])
         skin.append([s, rng.randrange(len(wires))])
         sig.append(s)
+    transforms = []
+    if rng.random() < 0.6:
+        # drawn from a small menu so that two models of one world coincide
+        menu = [['rotate', 1, [0, 0, 35], None], ['rotate', 1, [0, 0, 90], None],
+                ['translate', 2, [1.5, 0, 0], None], ['translate', 2, [0, -2.0, 0], None]]
+        if ground is None:
+            menu += [['rotate', 1, [30, 0, 0], None], ['rotate', 3, [0, 45, 10], None],
+                     ['translate', 2, [0, 0, 1.0], None], ['scale', 2.0, None]]
+        transforms = [rng.choice(menu) for _ in range(rng.choice([1, 1, 2]))]
     m = Model()
     m.length = L
     m.radii = [r]
@@ -1384,7 +1454,8 @@ def gen_direct_task(rng, ground='shared_ideal', maxops=20):
     if skin:
         feats.append('load_skin_c')
     return dict(kind='api', builder='direct',
-                direct=dict(wires=wires, ground=ground, sources=sources, loads=loads, skin=skin),
+                direct=dict(wires=wires, ground=ground, sources=sources, loads=loads, skin=skin,
+                            transforms=transforms, share_args=rng.random() < 0.8),
                 argv=[], pool=pool, fars=fars, nears=nears, ops=ops, template='direct_' + t,
                 env='ideal' if ground else 'free', features=feats, probes=probes,
                 npulses=npl + 2 * len(wires))
